@@ -151,6 +151,9 @@ func runC20(c C20Case) (st Stats, err error) {
 		if n.IsStack() {
 			if n.Mutex {
 				mutexNodes++
+				if n.ReadOnly && depth >= 1 {
+					st.Class("read-only-mutex-member")
+				}
 			}
 			if len(n.Elems) == 1 {
 				ch := n.Elems[0]
@@ -352,6 +355,8 @@ func genC20(t *rapid.T, tier Tier) C20Case {
 		}
 		n.NoNest = rapid.IntRange(0, 5).Draw(t, "nonest-after") == 0
 		n.PresPol = rapid.IntRange(0, 4).Draw(t, "prespol") == 0 // how a stack presents itself has no say in what Reveal may unwrap
+		// read-only members (set last): Reveal leaves their content alone; whatever it does there it may not panic, deadlock or keep a lock
+		n.ReadOnly = rapid.IntRange(0, 5).Draw(t, "readonly") == 0
 		return n
 	}
 	root := genStack(0)
@@ -379,7 +384,7 @@ func init() {
 			"non-trivial = the tree has an eligible wrapper at depth>=1 and an ineligible single-child wrapper; distinct = distinct tree JSON",
 		Gen:         genC20,
 		Run:         runC20,
-		Floors:      map[string]float64{"reveal-changed-something": 0.2, "mutex-nodes": 0.5, "cond-holding-stack": 0.1, "chain-length-2": 0.05},
+		Floors:      map[string]float64{"reveal-changed-something": 0.2, "mutex-nodes": 0.5, "cond-holding-stack": 0.1, "chain-length-2": 0.05, "read-only-mutex-member": 0.05},
 		Assumptions: []string{"an alias and its native conversion are the same node (Reveal re-inserts the converted native value)", "trees are acyclic and no instance is shared between two positions"},
 	})
 }
